@@ -940,6 +940,10 @@ void Router::attachedShapes(IntList &shapes, const unsigned int shapeId,
 }
 
 
+#ifdef ADAPTAGRAMS_VERIF
+VerifRerouteSink verifRerouteSink = nullptr;
+#endif
+
     // It's intended this function is called after visibility changes 
     // resulting from shape movement have happened.  It will alert 
     // rerouted connectors (via a callback) that they need to be redrawn.
@@ -949,6 +953,18 @@ void Router::rerouteAndCallbackConnectors(void)
     ConnRefList::const_iterator fin = connRefs.end();
     
     this->m_conn_reroute_flags.alertConns();
+
+#ifdef ADAPTAGRAMS_VERIF
+    if (verifRerouteSink)
+    {
+        for (ConnRefList::const_iterator i = connRefs.begin(); i != fin; ++i)
+        {
+            verifRerouteSink(this, *i, (*i)->m_needs_reroute_flag,
+                    (*i)->m_false_path, (*i)->m_route_dist,
+                    m_static_orthogonal_graph_invalidated);
+        }
+    }
+#endif
 
     // Updating the orthogonal visibility graph if necessary. 
     regenerateStaticBuiltGraph();
